@@ -50,6 +50,36 @@ def thread_prog(rng, u, nacq, allow_panic, data_ops, only=None, sh=0.35, sweep=0
     return ops
 
 
+def failed_try_progs(rng, b):
+    """one thread holds a member of a small collection while another tries the whole collection (shared or exclusive,
+    guard or scoped flavour), then acquires the collection or one of its members blocking, twice over: a failed try that
+    keeps anything makes that thread wait for itself, or makes the members unavailable for good"""
+    k = rng.choice([2, 2, 2, 3, 4])
+    rw = rng.random() < 0.65
+    leaves = [b.leaf("R" if rw or rng.random() < 0.5 else "M") for _ in range(k)]
+    listing = list(leaves)
+    rng.shuffle(listing)
+    c = b.coll(rng.choice(["boxed", "ref", "retry"]), listing, cont=rng.choice(shapes.CONTS))
+    held = rng.choice(leaves)
+    hm = "ex" if rng.random() < 0.8 or not b.sharable[held] else "sh"
+    p0 = [("get",), ("acq", held, hm, "guard")] + [("gread", 0)] * rng.randint(0, 2) + [("gdrop",)]
+    tm = "sh" if b.sharable[c] and rng.random() < 0.6 else "ex"
+    fl = rng.choice(["try", "scopedtry"])
+    p1 = [("get",)]
+    if fl == "try":
+        p1 += [("acq", c, tm, "try"), ("gdrop",)]
+    else:
+        p1.append(("acq", c, tm, "scopedtry", rng.random() < 0.6, [("r", rng.randrange(k))]))
+    for _ in range(rng.randint(1, 2)):
+        nxt = c if rng.random() < 0.5 else rng.choice(leaves)
+        p1 += [("get",), ("acq", nxt, "ex", "guard"), ("gdrop",)]
+    progs = [(0, p0), (1, p1)]
+    if rng.random() < 0.4:
+        other = rng.choice(leaves)
+        progs.append((2, [("get",), ("acq", other, "ex", "guard"), ("gdrop",)]))
+    return progs, [c] + leaves
+
+
 def gen_c08(tier, rng, n):
     """threads take sorting collections that list the same RwLock-heavy leaves in different orders, in both modes, while
     others hold single leaves: members are contended in the middle of an acquisition"""
@@ -161,6 +191,10 @@ def gen(pid, tier, rng, n=None):
                                          2 if pid == "C02" else 1, only if t == 0 else (others if others and rng.random() < 0.8 else None),
                                          sh0 if t == 0 else 0.35, sweep=0.35 if pid == "C02" else 0.0,
                                          nonacq=0.2 if rng.random() < 0.4 else 0.0)))
+        if pid in ("C01", "C03", "C05") and rng.random() < 0.12:
+            progs, extra = failed_try_progs(rng, b)
+            nt = len(progs)
+            u.roots += extra
         handoff = None
         if pid == "C10" and rng.random() < 0.2:
             # hand-off template: thread 0 panics while it holds a poisonable root exclusively; thread 1 is already waiting
